@@ -29,6 +29,11 @@ MANIFEST = {
 
 EM_KIND = {0: "asm", 1: "asm", 2: "bld", 3: "cmp"}
 
+# Open finding C16-K1 (known_findings.json): a second finalize() on a Compiler whose functions were already allocated normally
+# fails with InvalidState, but for this pair of functions the allocator follows a wild RAWorkReg pointer. The generators never
+# re-finalize such a Compiler (it is API misuse, outside the property's quantifier); the witness is replayed on every run.
+REFINALIZE = ["world dynamic", "init x64", "attach 3", "prog 3 func 699332340 34", "finalize 3", "prog 3 func 182628915 10", "finalize 3"]
+
 
 def generate():
     """(Re)write every Gen/ file this property's Lean modules import (also called by `check.py setup`)."""
@@ -52,6 +57,8 @@ class Tracker:
         self.attached = []
         self.clear_code()
         self.cursec = {i: None for i in range(4)}
+        self.cc_funcs = False       # the Compiler holds functions
+        self.cc_done = False        # ... and its passes already ran over them (a second finalize is API misuse, see REFINALIZE)
 
     def clear_code(self):
         self.nlabels = 0
@@ -59,6 +66,8 @@ class Tracker:
         self.home = {}          # label id -> section it lives in
         self.bound = set()      # labels bound (or scheduled to be bound by a builder node)
         self.names = 0
+        self.cc_funcs = False
+        self.cc_done = False
 
     def apply(self, op):
         w = op.split()
@@ -92,6 +101,14 @@ class Tracker:
             if i in self.attached:
                 self.attached.remove(i)
                 self.cursec[i] = None
+                if i == 3:
+                    self.cc_funcs = self.cc_done = False
+        elif k == "prog":
+            if w[2] == "func" and int(w[1]) in self.attached:
+                self.cc_funcs = True
+        elif k == "finalize":
+            if int(w[1]) == 3 and 3 in self.attached and self.cc_funcs:
+                self.cc_done = True
         elif k in ("label", "nlabel"):
             if int(w[1]) in self.attached:
                 self.nlabels += 1
@@ -156,7 +173,7 @@ def gen_code_ops(rng, tr, n, modelled=True, allow_err=False):
             emit("cmt %d" % i)
         elif r < 0.91 and kind == "cmp":
             emit(rng.choice(("vreg %d", "jann %d")) % i)
-        elif r < 0.94 and kind != "asm":
+        elif r < 0.94 and kind != "asm" and not (kind == "cmp" and tr.cc_done):
             emit("finalize %d" % i)
         elif allow_err and r < 0.97:
             emit("err %d %d" % (i, rng.choice((0, 2)) if modelled else rng.randrange(3)))
@@ -203,6 +220,8 @@ def gen_history(rng, tr, n, modelled=True):
             emit("heap %d" % rng.randrange(1 << 20))
         elif not modelled and r < 0.72 and tr.attached:
             i = rng.choice(tr.attached)
+            if EM_KIND[i] == "cmp" and tr.cc_done:
+                continue
             if EM_KIND[i] == "cmp" and rng.random() < 0.7:
                 emit("prog %d func %d %d" % (i, rng.randrange(1 << 30), rng.randrange(4, 40)))
                 if rng.random() < 0.6:
@@ -221,6 +240,8 @@ def gen_case(rng, modelled, hist_len):
     world_r = "world %s" % rng.choice(("dynamic", "static 4096", "static 64", "static 40000"))
     hist = gen_history(rng, tr, hist_len, modelled)
     kind = rng.random()
+    if not modelled and tr.init and tr.arch != "x64":
+        kind = 0.5              # `prog` emits x86-64 code: never keep a 32-bit holder through reinit
     tail = []
 
     def emit(op):
@@ -234,7 +255,7 @@ def gen_case(rng, modelled, hist_len):
             emit("reset %s" % rng.choice(("soft", "hard")))
         if rng.random() < 0.3:
             emit("heap %d" % rng.randrange(1 << 20))
-        emit("init %s" % rng.choice(("x64", "x64", "x86")))
+        emit("init %s" % (rng.choice(("x64", "x64", "x86")) if modelled else "x64"))
         order = rng.sample(range(4), rng.randrange(1, 5))
         for i in order:
             emit("attach %d" % i)
@@ -389,7 +410,8 @@ def run(res):
     crash_case = None
     if rc != 0 or len(impl) != len(stream):
         # locate the case in which the real code aborted
-        pos = len(impl)
+        impl2, _, _ = run_stream([str(h)], stream, env={"VH_FLUSH": "1"})
+        pos = len(impl2)
         for ci, which, a, b in index:
             if a <= pos < b:
                 crash_case = cases[ci]
@@ -453,6 +475,14 @@ def run(res):
         res.coverage["heap_perturbation_runs"] = 3 * len(sub)
     except vlib.BuildError:
         raise
+
+    # -- open finding C16-K1: replay the witness -------------------------------------------------------
+    o, krc, kerr = run_stream([str(h)], REFINALIZE)
+    res.coverage["refinalize_witness"] = "aborts rc=%d" % krc if krc != 0 else "answers %s" % (o[-1:] or ["?"])[0]
+    if krc != 0:
+        first = [l for l in kerr.splitlines() if "runtime error" in l or "SUMMARY" in l][:2]
+        res.violation("second finalize() on a Compiler that already ran its passes crashes instead of failing: %s" % " ".join(first)[:400],
+                      {"ops": REFINALIZE, "stderr": kerr[-2000:]}, True, key="abort:refinalize")
 
     # -- coverage ---------------------------------------------------------------------------------
     kinds = {}
